@@ -51,6 +51,8 @@ func init() {
 			Old: "ret = append(ret, posting.Source, posting.Destination)", New: "ret = append(ret, posting.Source)", Expect: "FLOW/involved-accounts"},
 	)
 	addBreakers("C06",
+		Breaker{Name: "emptied-source-left-at-zero", File: "internal/machine/vm/machine.go",
+			Old: "\t\t\t\taccBalances[asset] = overdraft.Neg()", New: "\t\t\t\taccBalances[asset] = machine.Zero", Expect: "DOM/withdraw-all"},
 		Breaker{Name: "balances-without-row-lock", File: "internal/storage/ledger/balances.go",
 			Old: "\t\t\t\tFor(\"update\").\n", New: "", Expect: "SQLS/get-balances"},
 		Breaker{Name: "zero-rows-not-created", File: "internal/storage/ledger/balances.go",
@@ -496,7 +498,12 @@ func rulePostingsReverse(c *core.Ctx) {
 					kind = "?"
 					if be, ok := x.Cond.(*ast.BinaryExpr); ok {
 						y := nospace(types.ExprString(be.Y))
+						_, yIsIdent := ast.Unparen(be.Y).(*ast.Ident)
+						_, xIsIdent := ast.Unparen(be.X).(*ast.Ident)
 						switch {
+						case be.Op == token.LSS && xIsIdent && yIsIdent:
+							// two-pointer walk `i < j`: visits pairs, never the middle element of an odd count
+							kind = "pairs"
 						case strings.HasSuffix(y, "/2"):
 							kind = "half"
 						case strings.HasPrefix(y, "len(") && strings.HasSuffix(y, ")") && be.Op == token.LSS:
@@ -527,6 +534,19 @@ func rulePostingsReverse(c *core.Ctx) {
 			c.Pass("FLOW/postings-reverse", key+":swaps-sides", pos(c, d.Decl), "every element: Source <-> Destination")
 		case "half":
 			c.Fail("FLOW/postings-reverse", key+":swaps-sides", pos(c, swapNodes[0]), sideMsg+" (the swap runs over half of the postings)")
+		case "pairs":
+			// fine only when the middle element is handled outside the loop as well
+			outside := false
+			for _, sn := range swapNodes {
+				if loopKind(sn) != "pairs" {
+					outside = true
+				}
+			}
+			if outside {
+				c.Unrecognised("FLOW/postings-reverse", key+":swaps-sides", pos(c, swapNodes[0]), "side swap split between a two-pointer loop and other code")
+			} else {
+				c.Fail("FLOW/postings-reverse", key+":swaps-sides", pos(c, swapNodes[0]), sideMsg+" (the swap runs inside a two-pointer loop `i < j`: with an odd number of postings the middle one keeps its source and destination, so the revert re-applies it instead of undoing it)")
+			}
 		default:
 			c.Unrecognised("FLOW/postings-reverse", key+":swaps-sides", pos(c, swapNodes[0]), "the loop around the side swap is not one the rule reads")
 		}
@@ -539,7 +559,7 @@ func rulePostingsReverse(c *core.Ctx) {
 	switch {
 	case orderSwap != nil:
 		switch loopKind(orderSwap) {
-		case "half":
+		case "half", "pairs":
 			c.Pass("FLOW/postings-reverse", key+":reverses-order", pos(c, d.Decl), "element order reversed (pairwise swap over half)")
 		case "all":
 			c.Fail("FLOW/postings-reverse", key+":reverses-order", pos(c, orderSwap), orderMsg+" (the pairwise swap runs over all indexes and undoes itself)")
@@ -1036,29 +1056,55 @@ func ruleWithdrawAll(c *core.Ctx) {
 		c.Fail("DOM/withdraw-all", key+":bound", pos(c, d.Decl), "withdrawAll no longer computes balance.Add(overdraft) as the amount available")
 		return
 	}
-	okAssign := 0
-	badAssign := 0
+	guarded := func(p token.Pos) bool {
+		for _, f := range astx.FactsAt(info, d.Decl.Body, p) {
+			if call, ok := ast.Unparen(f.Cond).(*ast.CallExpr); ok && f.Positive {
+				if cf := astx.Callee(info, call); cf != nil && cf.Name() == "Gt" && len(call.Args) == 1 && strings.HasSuffix(astx.SelectorPath(call.Args[0]), "Zero") {
+					if id, ok := ast.Unparen(recvExpr(call)).(*ast.Ident); ok && info.Uses[id] == sumVar {
+						return true
+					}
+				}
+			}
+		}
+		return false
+	}
+	// the amount taken: the variable that receives the available amount
+	var taken types.Object
 	ast.Inspect(d.Decl.Body, func(n ast.Node) bool {
 		as, ok := n.(*ast.AssignStmt)
-		if !ok || as.Tok != token.ASSIGN || len(as.Lhs) != 1 || astx.SelectorPath(as.Lhs[0]) != "amountTaken" {
+		if !ok || len(as.Lhs) != 1 || len(as.Rhs) != 1 {
 			return true
+		}
+		if rid, isID := ast.Unparen(as.Rhs[0]).(*ast.Ident); isID && info.Uses[rid] == sumVar {
+			if l, isL := as.Lhs[0].(*ast.Ident); isL {
+				taken = info.ObjectOf(l)
+			}
+		}
+		return true
+	})
+	if taken == nil {
+		c.Unrecognised("DOM/withdraw-all", key+":taken-only-when-positive", pos(c, d.Decl), "the variable receiving the available amount was not identified")
+		return
+	}
+	okAssign, badAssign := 0, 0
+	ast.Inspect(d.Decl.Body, func(n ast.Node) bool {
+		as, ok := n.(*ast.AssignStmt)
+		if !ok || len(as.Lhs) != 1 || len(as.Rhs) != 1 {
+			return true
+		}
+		l, isL := as.Lhs[0].(*ast.Ident)
+		if !isL || info.ObjectOf(l) != taken {
+			return true
+		}
+		if strings.HasSuffix(astx.SelectorPath(as.Rhs[0]), "Zero") {
+			return true // the initial "nothing taken"
 		}
 		rid, isID := ast.Unparen(as.Rhs[0]).(*ast.Ident)
 		if !isID || info.Uses[rid] != sumVar {
 			badAssign++
 			return true
 		}
-		guard := false
-		for _, f := range astx.FactsAt(info, d.Decl.Body, as.Pos()) {
-			if call, ok := ast.Unparen(f.Cond).(*ast.CallExpr); ok && f.Positive {
-				if cf := astx.Callee(info, call); cf != nil && cf.Name() == "Gt" && len(call.Args) == 1 && strings.HasSuffix(astx.SelectorPath(call.Args[0]), "Zero") {
-					if id, ok := ast.Unparen(recvExpr(call)).(*ast.Ident); ok && info.Uses[id] == sumVar {
-						guard = true
-					}
-				}
-			}
-		}
-		if guard {
+		if guarded(as.Pos()) {
 			okAssign++
 		} else {
 			badAssign++
@@ -1066,6 +1112,38 @@ func ruleWithdrawAll(c *core.Ctx) {
 		return true
 	})
 	c.Check(okAssign == 1 && badAssign == 0, "DOM/withdraw-all", key+":taken-only-when-positive", pos(c, d.Decl), "amountTaken = balance+overdraft only if that is > 0", "withdrawAll may take an amount that is not bounded by max(0, balance + overdraft)")
+	// … and what is left is minus the allowance: the tracked balance becomes overdraft.Neg(), so
+	// a second use of the same source in the script finds nothing more to take
+	left, wrongLeft := 0, 0
+	ast.Inspect(d.Decl.Body, func(n ast.Node) bool {
+		as, ok := n.(*ast.AssignStmt)
+		if !ok || len(as.Lhs) != 1 || len(as.Rhs) != 1 {
+			return true
+		}
+		if _, isIx := ast.Unparen(as.Lhs[0]).(*ast.IndexExpr); !isIx || !guarded(as.Pos()) {
+			return true
+		}
+		okNeg := false
+		if call, isCall := ast.Unparen(as.Rhs[0]).(*ast.CallExpr); isCall && len(call.Args) == 0 {
+			if cf := astx.Callee(info, call); cf != nil && cf.Name() == "Neg" && canonPath(d, recvExpr(call)) == "p2" {
+				okNeg = true
+			}
+		}
+		if okNeg {
+			left++
+		} else {
+			wrongLeft++
+		}
+		return true
+	})
+	switch {
+	case wrongLeft > 0:
+		c.Fail("DOM/withdraw-all", key+":left-at-minus-allowance", pos(c, d.Decl), "after emptying a source withdrawAll records a balance other than minus the overdraft allowance: a later take from the same source in the same script can use the allowance again (the account ends below its allowance)")
+	case left >= 1:
+		c.Pass("DOM/withdraw-all", key+":left-at-minus-allowance", pos(c, d.Decl), "balance := overdraft.Neg() once everything available was taken")
+	default:
+		c.Fail("DOM/withdraw-all", key+":left-at-minus-allowance", pos(c, d.Decl), "withdrawAll takes what is available without lowering the tracked balance: a later take from the same source in the same script finds the same funds again")
+	}
 }
 
 // isBalanceLookup: e is a local obtained from a (comma-ok) map lookup, i.e. the tracked balance.
